@@ -409,6 +409,15 @@ def enums_rule(rep, prog, cfg):
             continue
         b = bs[0]
         sws = [s for s in tables.discr_switches(b) if s["adt"].endswith(adt)]
+        if not sws:
+            # the keyword may be chosen by a private method of the enum (`self.0.keyword()`): spliced in (A12)
+            from ..inline import inlined
+            b0 = b
+            nb2 = inlined(prog, b, lambda cb: cb.crate == b0.crate and cb.kind in ("Fn", "AssocFn") and not cb.raw.get("pub") and not cb.raw.get("exported")
+                          and not cb.raw.get("derived") and not cb.raw.get("coroutine"), depth=2)
+            if nb2.raw.get("inlined"):
+                b = nb2
+                sws = [s for s in tables.discr_switches(b) if s["adt"].endswith(adt)]
         if len(sws) != 1:
             rep.fail(rule, "%s/%s match" % (cfg, short), b.loc(b.span), "expected one match on %s, found %d" % (short, len(sws)))
             continue
@@ -463,6 +472,11 @@ def overflow_rule(rep, prog, cfg):
         rep.fail(rule + ".anchor", cfg + "/SongRange::new_usize", "definitions.rs", "range normalisation not found")
         return
     b = bs[0]
+    if not [1 for bb, t in b.calls() if "core::num::<impl usize>::saturating_add" in callee_names(t)]:
+        # the two bounds may be normalised by private helpers (`Self::first_position(range.start_bound())`): spliced in (A12)
+        from ..inline import inlined, module_private_helpers
+        nb2 = inlined(prog, b, module_private_helpers(b), depth=2)
+        b = nb2 if nb2.raw.get("inlined") else b
     sat = [bb for bb, t in b.calls() if "core::num::<impl usize>::saturating_add" in callee_names(t)]
     plain = [s for bb, i, s in b.stmts() if s["k"] == "assign" and s["rv"]["k"] == "binop" and s["rv"]["op"].startswith(("Add", "Sub"))]
     # one for the excluded start bound, one for the included end bound; each adds the constant 1
